@@ -437,7 +437,8 @@ class Context:
 			try:
 				pathResult = self.evaluate (path.strip ())
 				# If this is part of a "exists: path1 | exists: path2" path then we need to look at the actual result.
-				if (pathResult):
+				# A plain later path exists as soon as it evaluates, whatever its value (0, nothing, empty).
+				if (pathResult or not path.strip ().startswith ('exists:')):
 					return self.true
 			except PathNotFoundException as e:
 				pass
